@@ -46,13 +46,6 @@ class QT(Model):
     __mul__ = __rmul__
 
 
-def _unit_rmul(self, k):
-    return QT("unit:%s" % (self.name,), self)
-
-
-UnitTok.__rmul__ = _unit_rmul
-
-
 class Recorder:
     def __init__(self):
         self.kernel = None
